@@ -43,7 +43,7 @@ CHECKS = {
                 "state stop() leaves behind, every untimed wait in run() is woken and every path reaches break within "
                 "one chunk; each chunk written once, unconditionally, in order. Schedules are not explored.",
         "note": NOTE,
-        "technique": "lock-set / lock-order analysis over a resolved call graph + abstract walk of the stop protocol",
+        "technique": "lock-set / lock-order analysis over a resolved call graph + abstract walk of the stop protocol; both directions of the stop protocol (stopped players break, running ones never do)",
     },
     "C18": {
         "text": "Static analysis: stdlib attributes used on array/Struct/Wave_read objects exist on this interpreter; the "
@@ -61,7 +61,7 @@ CHECKS = {
                 "branches and direct/compositional evaluation; eq/ne/hash coherence; Lagrange basis term. Ring laws on "
                 "concrete values follow from these term-wise identities and are not re-proved.",
         "note": NOTE,
-        "technique": "who-may-write check on the store + rational-normal-form comparison of term maps",
+        "technique": "who-may-write check on the store + rational-normal-form comparison of term maps; decision tables over argument kinds (constructor, operators, evaluation)",
     },
     "C10": {
         "text": "Static analysis: symbolic index-range analysis shows every subscript of acorr/lag_matrix/toeplitz stays "
@@ -94,7 +94,7 @@ CHECKS = {
                 "R = exp(-bandwidth/2) and zeros at +-1, comb forms, gammatone normalisation - all as identities in the "
                 "design parameters. Monotonicity and numeric pole radius are not decided.",
         "note": NOTE,
-        "technique": "rational normal forms with algebraic relations + linear-use accounting",
+        "technique": "rational normal forms with algebraic relations + linear-use accounting; unit-gain identity of the resonators as a polynomial identity",
     },
     "C01": {
         "text": "Static analysis: operand provenance of every operator application in the four metaclass template "
@@ -104,7 +104,7 @@ CHECKS = {
                 "broadcast position and preserves laziness/container kind; decorator/signature agreement of the "
                 "broadcast family. Element values are not computed.",
         "note": NOTE,
-        "technique": "provenance analysis + constant folding of the operator table against the data model",
+        "technique": "provenance analysis + constant folding of the operator table against the data model; decision tables over operand kinds (guards evaluated per scenario)",
     },
     "C09": {
         "text": "Static analysis: overlap-add memory slices normalised to (start, stop) over symbolic size/hop - "
@@ -114,7 +114,7 @@ CHECKS = {
                 "stripped) and stage order (window first, then before/transform/func/inverse/after); no StopIteration "
                 "escape from size detection. Numeric sums are not computed.",
         "note": NOTE,
-        "technique": "symbolic slice algebra + ordered routing/dataflow checks + PEP-479 escape analysis",
+        "technique": "symbolic slice algebra + ordered routing/dataflow checks + PEP-479 escape analysis; decision tables over window kinds, options and normalisation arms",
     },
     "C08": {
         "text": "Static analysis: zero_pad summarised into its three yield segments (complete for that sentence); blocks "
@@ -133,7 +133,7 @@ CHECKS = {
                 "no StopIteration escape and the documented window/threshold/step shape. Values in floating point are "
                 "not computed.",
         "note": NOTE,
-        "technique": "per-leaf inductive step in rational normal form + yield-segment summaries + PEP-479 escape analysis",
+        "technique": "per-leaf inductive step in rational normal form + yield-segment summaries + PEP-479 escape analysis; kind consistency of dispatch leaves, evaluated duration guards, frozen table of documented defaults",
     },
     "C20": {
         "text": "Static analysis: clip is bounded on every conditional leaf (guard-implies-bound; complete for bounding "
@@ -161,7 +161,7 @@ CHECKS = {
                 "the zero filter are proved in rational normal form with symbolic samples; plus causality guard first, "
                 "memory normalisation and exec wiring. Bounded over filter shapes, unbounded over inputs.",
         "note": NOTE,
-        "technique": "constant folding of the kernel builder + rational-normal-form check of the generated AST",
+        "technique": "constant folding of the kernel builder + rational-normal-form check of the generated AST; coefficient classes completed by the literals the builder compares with; decision tables for constructor and memory arguments",
     },
     "C05": {
         "text": "Static analysis: __ne__ is the De Morgan complement of __eq__ for LinearFilter/FilterList/Poly/"
@@ -170,7 +170,7 @@ CHECKS = {
                 "no solver); substitution f(g); cascade = product / parallel = sum with numerator and denominator "
                 "projected from one fraction; linearize weights. Does not decide outputs on signals.",
         "note": NOTE,
-        "technique": "boolean-skeleton duality + rational normal forms over loop-free paths",
+        "technique": "boolean-skeleton duality + rational normal forms over loop-free paths; decision tables over operand kinds, exponent sign and term counts",
     },
     "C06": {
         "text": "Static analysis: generated kernels with Stream coefficients advance each iterator exactly once per "
@@ -187,7 +187,7 @@ CHECKS = {
                 "tees n, pops one per use, IndexError on exhaustion, overrides every _data-touching method; in-place "
                 "methods shape; thub identity on non-iterables. Does not decide list-model equivalence over histories.",
         "note": NOTE,
-        "technique": "AST rules: PEP-479 escape analysis, tee-discipline and override-set checks",
+        "technique": "AST rules: PEP-479 escape analysis, tee-discipline and override-set checks; decision tables over representative counts / argument kinds (guards folded, not read)",
     },
 }
 
